@@ -51,9 +51,9 @@ def run(pid, tier):
     rnd = random.Random(lib.seed())
     # 1. scaled exhaustive model
     inv = ["OnlySelectedTouched", "StartIsMultipleInInterval", "RangeRejected", "OnlyRangeRejected", "NoReferenceRejected",
-           "SetupTotal", "CycleExact"]
-    for name, consts in (("arith", dict(TW=7 if q else 9, PW=3 if q else 4, NDev=1, WideSum=True)),
-                         ("select", dict(TW=3, PW=2, NDev=2 if q else 3, WideSum=True))):
+           "SetupTotal", "CycleExact", "NoHalfConfiguredActive", "NoSpill"]
+    for name, consts in (("arith", dict(TW=7 if q else 9, PW=3 if q else 4, NDev=1, WideSum=True, Sync1Checked=True)),
+                         ("select", dict(TW=3, PW=2, NDev=2 if q else 3, WideSum=True, Sync1Checked=True))):
         cfg = lib.cfg_text(init="DsInit", next_="DsNext", constants=consts, invariants=inv)
         sc.mc(name, "DcSync", cfg, workers=8)
     # 2. true widths with Apalache (proof obligations of the arithmetic)
@@ -77,7 +77,7 @@ def run(pid, tier):
             dc = "dc64" if j == 0 else rnd.choice(["none", "dc64", "dc64", "dc32"])
             devs.append(dict(kind="dio", in_bits=8, out_bits=8, tag=j + 1, dc=dc))
             m = rnd.choice(["disabled", "sync0", "sync0", "sync01"])
-            modes.append({"sync01": limbs(rnd.choice([1000, 500_000, U32]), 4)} if m == "sync01" else m)
+            modes.append({"sync01": limbs(rnd.choice([1000, 500_000, 500_000, U32, U32, U32 + 1, 2 ** 33 + 5, 2 ** 48]), 4)} if m == "sync01" else m)
         return devs, modes
     for t in ts:
         for p in ps:
@@ -108,7 +108,8 @@ def run(pid, tier):
             if cyc and "cycle_info" in cyc[0].get("response", {}):
                 qw = limbs(val(cyc[0]["response"]["cycle_info"]["dc_system_time"]) // p if p else 0, 4)
             modes = [m if isinstance(m, str) else "sync01" for m in r["case"]["dc_sync"]]
-            r["witness"] = dict(k=ks, q=qw, modes=modes)
+            sync1 = [[0, 0, 0, 0] if isinstance(m, str) else m["sync01"] for m in r["case"]["dc_sync"]]
+            r["witness"] = dict(k=ks, q=qw, modes=modes, sync1=sync1)
             out.write(json.dumps(r) + "\n")
 
     def key(c):
